@@ -1848,8 +1848,7 @@ class Engine(object):
         res = m(node, st)
         gu = self.options.get("ghost_updates")
         if gu and self.in_main and not self.pure_depth:
-            text = ast.unparse(node)
-            fns = gu.get(text)
+            text, fns = self._anchor(gu, node)
             if fns:
                 self._ghost_hits.add(text)
                 con = self.options["contract"]
@@ -1872,8 +1871,7 @@ class Engine(object):
                 res = out
         ga = self.options.get("ghost_asserts")
         if ga and self.in_main and not self.pure_depth:
-            text = ast.unparse(node)
-            fns = ga.get(text)
+            text, fns = self._anchor(ga, node)
             if fns:
                 self._ghost_hits.add(text)
                 con = self.options["contract"]
@@ -1894,6 +1892,19 @@ class Engine(object):
                     out.append((kind, s2, v))
                 res = out
         return res
+
+    @staticmethod
+    def _anchor(table, node):
+        """the ghost functions anchored on this statement: by its exact (normalised) text, or - for anchors written
+        `target = ...` - by its assignment target alone, so that an edit of the right-hand side is verified, not skipped"""
+        text = ast.unparse(node)
+        fns = table.get(text)
+        if fns:
+            return text, fns
+        for key, fns in table.items():
+            if key.endswith(" = ...") and text.startswith(key[:-3]):
+                return key, fns
+        return text, None
 
     def _raise_out(self, s, r):
         return ("raise", s, r.exc)
@@ -2247,6 +2258,43 @@ class Engine(object):
             if spec is not None and spec.invariant:
                 out.extend(self.loop_with_invariant(node, s, spec, ordn, itv))
                 continue
+            if (spec is not None and spec.unroll and isinstance(itv, RangeV) and isinstance(itv.step, int) and itv.step == 1
+                    and self.static_items(itv) is None):
+                # range(lo, hi) with a symbolic bound, declared to run at most `unroll` times: unrolled with the loop counter
+                # concrete in every round, plus the unwinding obligation hi - lo <= unroll (complete when it is discharged)
+                hdr_ = self.mod.segment(node).split("\n")[0].strip()
+                if spec.header is not None and hdr_ != spec.header.strip():
+                    raise EngineError("loop %d header changed: expected %r, found %r" % (ordn, spec.header, hdr_))
+                ar = Arith(lambda *x: None)
+                states = [s]
+                for i in range(spec.unroll + 1):
+                    nxt = []
+                    for s1 in states:
+                        more = ar.compare('<', ar.binop('+', itv.lo, i), itv.hi)
+                        t = truth(more)
+                        if i == spec.unroll:
+                            s1 = self.oblige(s1, "unwind", node, b_not(more), label="at_most_%d_rounds" % spec.unroll)
+                            t = False
+                        s_stop = s1 if t is False else (None if t is True else s1.assume(z3.Not(t)))
+                        if s_stop is not None and (t is False or self.feasible(s_stop)):
+                            out.extend(self.exec_block(node.orelse, s_stop) if node.orelse else [("normal", s_stop, None)])
+                        if t is False:
+                            continue
+                        s_go = s1 if t is True else s1.assume(t)
+                        if t is not True and not self.feasible(s_go):
+                            continue
+                        s2 = self._mark_iter(self.assign(node.target, ar.binop('+', itv.lo, i), s_go, node))
+                        for k, s3, v in self.exec_block(node.body, s2):
+                            if k in ("normal", "continue"):
+                                nxt.append(s3)
+                            elif k == "break":
+                                out.append(("normal", s3, None))
+                            else:
+                                out.append((k, s3, v))
+                    states = nxt
+                    if not states:
+                        break
+                continue
             if isinstance(itv, LitSet) and itv.conds is not None and len(itv.items) <= self.MAX_UNROLL:
                 # a small symbolic set: each candidate's iteration happens under its presence flag
                 # (iteration order is arbitrary; sound for bodies whose effect commutes -- checked
@@ -2266,8 +2314,12 @@ class Engine(object):
                             for k, s3, v in self.exec_block(node.body, self._mark_iter(self.assign(node.target, it, s_y, node))):
                                 if k in ("normal", "continue"):
                                     r_y.append(("normal", s3, None))
+                                elif k == "break":
+                                    out.append(("normal", s3, None))     # leaves the loop (its else clause is skipped)
                                 else:
-                                    raise EngineError("break/return inside a loop over a symbolic set (line %d)" % node.lineno)
+                                    # return / raise from inside the loop: an exit on the path where this member is present
+                                    # (sound for any iteration order when the body does nothing else before leaving)
+                                    out.append((k, s3, v))
                         r_n = [("normal", s_n, None)] if s_n is not None and self.feasible(s_n) else []
                         if t is True:
                             nxt.extend(x[1] for x in r_y)
